@@ -37,7 +37,8 @@ def main():
     os.rmdir(wt)
     out = {"dir": d, "property": prop}
     try:
-        rc, o = sh(["git", "-C", "/repo", "worktree", "add", "-q", "--detach", wt, "HEAD"])
+        # SEED_BASE_REF: the commit the change was made against (default: the current HEAD of /repo)
+        rc, o = sh(["git", "-C", "/repo", "worktree", "add", "-q", "--detach", wt, os.environ.get("SEED_BASE_REF", "HEAD")])
         assert rc == 0, o
         env = dict(os.environ, PYTHONPATH=os.path.join(wt, "src"))
         rc0, o0 = sh([PY, demo], cwd=wt, env=env, timeout=600)
